@@ -1,4 +1,5 @@
 import RoaringModel.Lemmas.IOLemmas
+import RoaringModel.Lemmas.RoundTrip
 /-!
 # C14 — I/O faults surface as errors; read/write chunking is irrelevant (32-bit half)
 
@@ -36,6 +37,15 @@ theorem C14_prefix (chk dbg : Bool) (bs : List Nat) (b : Bitmap)
     (h : deserialize chk dbg bs = .ok (b, [])) (k : Nat) (hk : k < bs.length) :
     deserialize chk dbg (bs.take k) = .error .eof :=
   strict_prefix_eof _ (mono_deserializeG chk dbg) bs b h k hk
+
+/-- Every strict prefix of a serialisation the crate writes is an error (EOF), for both decoders. -/
+theorem C14_prefix_serialize (chk dbg : Bool) (b : Bitmap) (h : BitmapWF b) (k : Nat)
+    (hk : k < (Bitmap.serialize b).length) :
+    deserialize chk dbg ((Bitmap.serialize b).take k) = .error .eof := by
+  have hd : deserialize chk dbg (Bitmap.serialize b) = .ok (b, []) := by
+    have := deserialize_serialize chk dbg b h []
+    simpa using this
+  exact C14_prefix chk dbg _ b hd k hk
 
 /-- More generally: if decoding stops with `rest` unread, every prefix that is shorter than the consumed part
     is an EOF error, and the consumed part alone decodes to the same value. -/
